@@ -41,3 +41,17 @@ package rawdb
 //@   ensures valInfo.ValidatorSet != nil ==> (forall i int :: 0 <= i && i < len(valInfo.ValidatorSet.Validators) ==> db.vprio[recKey(hash)][i] == valInfo.ValidatorSet.Validators[i].ProposerPriority)
 //@ trusted func WriteConsensusStateHeight(db kaidb.KeyValueWriter, height uint64, state kstate.State) (err error)
 //@ trusted func WriteConsensusParamsInfo(db kaidb.KeyValueWriter, hash common.Hash, paramsInfo kstate.ConsensusParamsInfo) (err error)
+
+// ---------------------------------------------------------------- C13: one database key per (height, part index)
+// The key of a block part holds the full height and the full 32-bit part index: two parts of a block (a
+// block may have up to 1601 parts) or of different blocks never share a key.
+//@ func encodeBlockHeight(height uint64) (r []byte)
+//@   for C13
+//@   ensures fresh(r) && len(r) == 8 && binary.u64be(r) == height
+//@ func encodeIndex(index uint32) (r []byte)
+//@   for C13
+//@   ensures fresh(r) && len(r) == 4 && binary.u32be(r) == index
+//@ func blockPartKey(height uint64, index int) (r []byte)
+//@   for C13
+//@   requires 0 <= index && index <= 4294967295 && len(blockPartPrefix) == 1 && cap(blockPartPrefix) == 1      // a one-byte literal: append always copies
+//@   ensures [keyHoldsHeightAndFullIndex] len(r) == 13 && binary.u64be(r[1:9]) == height && binary.u32be(r[9:13]) == index
